@@ -44,8 +44,17 @@ func Verif_C04_histories() {
 	}
 	hdr := f.Len()
 	f.WriteString("%PDF-1.7\n%\x80\x80\x80\x80\n")
-	ws := []string{" ", "\r\n", " % c\n"}[verifrt.Choice("ws", 3)]
+	wsIdx := verifrt.Choice("ws", 3)
+	ws := []string{" ", "\r\n", " % c\n"}[wsIdx]
 	eol := []string{" \n", " \r", "\r\n"}[verifrt.Choice("eol", 1+2*verifrt.Tier())]
+	// end-of-line after the keywords xref, trailer, startxref and after
+	// subsection headers and the startxref offset
+	// (quick tier: varied together with the white space inside objects)
+	kwIdx := wsIdx
+	if verifrt.Tier() > 0 {
+		kwIdx = verifrt.Choice("kweol", 3)
+	}
+	kw := []string{"\n", "\r\n", "\r"}[kwIdx]
 	state := make([]verifObjState, K+3)
 	prev := -1
 	catalog, pages := K+1, K+2
@@ -53,6 +62,11 @@ func Verif_C04_histories() {
 	for rev := 0; rev < R; rev++ {
 		kind := verifrt.Choice("kind", 4)
 		var ents []verifXEnt
+		// objects defined inside an object stream of this revision (only in
+		// revisions described by a cross-reference stream, generation 0)
+		compressedIn := map[int]int{}
+		var members [][2]int // object number, value
+		objStm := 0
 		if rev == 0 {
 			ents = append(ents, verifXEnt{0, 65535, 0, true})
 			off := f.Len() - hdr
@@ -67,6 +81,17 @@ func Verif_C04_histories() {
 			switch verifrt.Choice("act", 4) {
 			case 1: // define (or redefine) with the current generation
 				val := 100*(rev+1) + k
+				if kind == 2 && st.gen == 0 && verifrt.Choice("compressed", 2) == 1 {
+					if objStm == 0 {
+						objStm = nextStm
+						nextStm++
+					}
+					compressedIn[k] = objStm
+					ents = append(ents, verifXEnt{k, 0, len(members), false})
+					members = append(members, [2]int{k, val})
+					st.defined, st.val, st.free, st.everMentioned = true, val, false, true
+					break
+				}
 				off := f.Len() - hdr
 				fmt.Fprintf(&f, "%d %d obj%s%d%sendobj\n", k, st.gen, ws, val, ws)
 				ents = append(ents, verifXEnt{k, st.gen, off, false})
@@ -91,11 +116,24 @@ func Verif_C04_histories() {
 				}
 			}
 		}
+		if objStm != 0 {
+			var head, body bytes.Buffer
+			for _, m := range members {
+				fmt.Fprintf(&head, "%d %d ", m[0], body.Len())
+				fmt.Fprintf(&body, "%d ", m[1])
+			}
+			off := f.Len() - hdr
+			fmt.Fprintf(&f, "%d 0 obj\n<</Type/ObjStm/N %d/First %d/Length %d>>\nstream\n", objStm, len(members), head.Len(), head.Len()+body.Len())
+			f.Write(head.Bytes())
+			f.Write(body.Bytes())
+			f.WriteString("\nendstream\nendobj\n")
+			ents = append(ents, verifXEnt{objStm, 0, off, false})
+		}
 		size := K + 3
 		xrefPos := f.Len() - hdr
 		verifSortEnts(ents)
 		writeTable := func(ents []verifXEnt, size int, merge bool, xrefStm int) {
-			f.WriteString("xref\n")
+			f.WriteString("xref" + kw)
 			if len(ents) == 0 {
 				f.WriteString("0 0\n")
 			}
@@ -105,7 +143,7 @@ func Verif_C04_histories() {
 				for j < len(ents) && ents[j].num == ents[j-1].num+1 && merge {
 					j++
 				}
-				fmt.Fprintf(&f, "%d %d\n", ents[i].num, j-i)
+				fmt.Fprintf(&f, "%d %d%s", ents[i].num, j-i, kw)
 				for _, e := range ents[i:j] {
 					if e.free {
 						fmt.Fprintf(&f, "%010d %05d f%s", 0, e.gen, eol)
@@ -115,7 +153,7 @@ func Verif_C04_histories() {
 				}
 				i = j
 			}
-			fmt.Fprintf(&f, "trailer\n<</Size %d/Root %d 0 R", size, catalog)
+			fmt.Fprintf(&f, "trailer%s<</Size %d/Root %d 0 R", kw, size, catalog)
 			if prev >= 0 {
 				fmt.Fprintf(&f, "/Prev %d", prev)
 			}
@@ -143,6 +181,8 @@ func Verif_C04_histories() {
 					tp, f2, f3 := 1, e.off, e.gen
 					if e.free {
 						tp, f2 = 0, 0
+					} else if stm, ok := compressedIn[e.num]; ok {
+						tp, f2, f3 = 2, stm, e.off
 					}
 					body.WriteByte(byte(tp))
 					for b := w2 - 1; b >= 0; b-- {
@@ -203,7 +243,7 @@ func Verif_C04_histories() {
 			xrefPos = f.Len() - hdr
 			writeTable(inTable, size, true, stmPos)
 		}
-		fmt.Fprintf(&f, "startxref\n%d\n%%%%EOF\n", xrefPos)
+		fmt.Fprintf(&f, "startxref%s%d%s%%%%EOF\n", kw, xrefPos, kw)
 		prev = xrefPos
 	}
 	data := f.Bytes()
